@@ -229,6 +229,9 @@ func witnessFrom(fn *ssa.Function, from ssa.Instruction, q *deepQ, av func(ssa.I
 		if _, isDefer := s.(*ssa.Defer); isDefer {
 			continue
 		}
+		if s.Parent() != fn && !inRegion(fn, s.Parent()) {
+			continue // this call site does not return into fn
+		}
 		if w := witnessFrom(fn, s, q, av, depth+1); w != nil {
 			return w
 		}
@@ -507,8 +510,21 @@ func desc(v ssa.Value, depth int) string {
 		return x.Name()
 	case *ssa.FieldAddr:
 		if a, ok := x.X.(*ssa.Alloc); ok {
-			if p, isP := singleStore(a).(*ssa.Parameter); isP {
+			ss := singleStore(a)
+			if p, isP := ss.(*ssa.Parameter); isP {
 				return desc(p, depth+1) + "." + fieldName(x.X.Type(), x.Field)
+			}
+			// a local that is a never-modified copy of (a part of) a parameter: `caller := ent.Caller`
+			if ld, isLoad := ss.(*ssa.UnOp); isLoad && ld.Op == token.MUL {
+				rt := Root(ld)
+				if ra, isA := rt.(*ssa.Alloc); isA {
+					if sp := singleStore(ra); sp != nil {
+						rt = sp
+					}
+				}
+				if _, isP := rt.(*ssa.Parameter); isP {
+					return desc(ld, depth+1) + "." + fieldName(x.X.Type(), x.Field)
+				}
 			}
 			return allocName(a) + "." + fieldName(x.X.Type(), x.Field)
 		}
@@ -571,6 +587,14 @@ func desc(v ssa.Value, depth int) string {
 	case *ssa.Call:
 		if s, ok := callProjection(x, depth); ok {
 			return s
+		}
+		// len(buf.Bytes()) is buf.Len() for zap's buffer (and bytes.Buffer): one canonical form
+		if CallBuiltin(x) == "len" && len(x.Call.Args) == 1 {
+			if bc, ok := x.Call.Args[0].(*ssa.Call); ok {
+				if f := CalleeFunc(bc); f != nil && f.Name() == "Bytes" && f.Pkg() != nil && (f.Pkg().Path() == "go.uber.org/zap/buffer" || f.Pkg().Path() == "bytes") && len(Args(bc)) == 1 {
+					return "Len(" + desc(Args(bc)[0], depth+1) + ")"
+				}
+			}
 		}
 		var args []string
 		for _, a := range Args(x) {
